@@ -1,6 +1,8 @@
 import Driver.Proto
 import Model.LogHandlers
 import Model.TraceProto
+import Model.LogEntry
+import Model.LogFanout
 /-! Model driver of C13: a stateful line protocol over `TL` (tracelog) and `ML` (multilog). -/
 open Proto
 
@@ -19,6 +21,7 @@ structure St where
   aggs : List (Nat × Nat) := []          -- sink ↦ heap cell of its long-lived two-element aggregate
   panicMsg : List (Nat × String) := []   -- sink ↦ text of the value its `Write` panics with (a harness token)
   panicSent : List Nat := []             -- sinks whose `Write` panics with the sentinel itself
+  panicErr : List Nat := []              -- sinks whose `Write` panics with a value that implements `error`
   vars : List Nat := []                  -- sinks whose handler family shares a `*slog.LevelVar`
   failMsg : List (Nat × String) := []    -- sink ↦ `Error()` text of the foreign error value its `Write` returns (token)
 
@@ -28,7 +31,8 @@ def getS (s : St) (i : Nat) : Option TL.SinkSt := s.sinks.lookup i
 def setS (s : St) (i : Nat) (k : TL.SinkSt) : St := { s with sinks := (i, k) :: s.sinks.filter (·.1 != i) }
 
 /-- attribute words (prefix notation):
-    `e` | `l <key> <tok> <kind> <payload>` | `g <key> <n> attr*n` | `v attr` | `k <key> <trace> attr` -/
+    `e` | `l <key> <tok> <kind> <payload>` | `g <key> <n> attr*n` | `v attr` | `k <key> <trace> attr` |
+    `s <key> <trace>` (a real `errs.stackValue` over a scripted stack text: `ELog.stackAttrAt`) -/
 partial def parseAttr : List String → Option (TL.Attr × List String)
   | "e" :: rest => some (.empty, rest)
   | "l" :: k :: tok :: _ :: _ :: rest =>
@@ -56,8 +60,14 @@ partial def parseAttr : List String → Option (TL.Attr × List String)
     | none => none
   | "k" :: k :: tr :: rest =>
     match hexBytes? k, hexBytes? tr, parseAttr rest with
+    -- (the carrier resolves to the inner VALUE: a stack carrier in there is never asked for its `StackError()`)
+    | some k, some tr, some (.stack _ _ fb, rest') => some (.stack k tr fb, rest')
     | some k, some tr, some (fb, rest') => some (.stack k tr fb, rest')
     | _, _, _ => none
+  | "s" :: k :: tr :: rest =>
+    match hexBytes? k, hexBytes? tr with
+    | some k, some tr => some (ELog.stackAttrAt k tr, rest)
+    | _, _ => none
   | _ => none
 
 partial def parseAttrs (ws : List String) (acc : List TL.Attr) : Option (List TL.Attr) :=
@@ -136,31 +146,38 @@ def showSentinels (s : St) : String :=
     toString k ++ ":" ++ toString (Errs.count s.eh id) ++ ":" ++ strHex (Errs.message s.eh id) ++ ":" ++
       toString (Errs.count s.eh a) ++ ":" ++ strHex (Errs.message s.eh a))
 
-/-- the `error` value a tracelog child's `Handle` comes back with inside `runHandler` (a panic is recovered into
-    `NewWithCause("recovered from panic", Newf("%+v", recovered))`); fresh values are allocated on the heap -/
-def retVal (s : St) (ret : TL.Ret) : St × Errs.Val :=
+/-- the value a sink's `Write` panics with, as far as `errs.Recovery` distinguishes it -/
+def panicVal (s : St) (k : Nat) : Rec.PVal :=
+  if s.panicSent.contains k then .err (.ref ((s.sentinels.lookup k).getD 0))
+  else
+    let txt := (s.panicMsg.lookup k).getD ("sinkpanic" ++ toString k)
+    if s.panicErr.contains k then .err (.plain 0 txt) else .other txt
+
+/-- how a tracelog child's `Handle` ends, as `multilog.runHandler` sees it: it returns a value (fresh values are
+    allocated on the heap) or it panics -/
+def flowOf (s : St) (ret : TL.Ret) : St × Rec.Flow :=
   match ret with
-  | .nil => (s, .nilIface)
-  | .err k .plain => (s, .plain 0 ((s.failMsg.lookup k).getD (errMsg .plain k)))
-  | .err k .fresh => let (eh, v) := Errs.new s.eh (errMsg .fresh k); ({ s with eh := eh }, v)
+  | .nil => (s, .ret .nilIface)
+  | .err k .plain => (s, .ret (.plain 0 ((s.failMsg.lookup k).getD (errMsg .plain k))))
+  | .err k .fresh => let (eh, v) := Errs.new s.eh (errMsg .fresh k); ({ s with eh := eh }, .ret v)
   | .err k .sentinel =>
     match s.sentinels.lookup k with
-    | some id => (s, .ref id)
-    | none => (s, .nilIface)
+    | some id => (s, .ret (.ref id))
+    | none => (s, .ret .nilIface)
   | .err k .aggregate =>
     match s.aggs.lookup k with
-    | some id => (s, .ref id)
-    | none => (s, .nilIface)
-  | .err _ .typedNil => (s, .typedNil)
-  | .err _ .foreignNil => (s, .foreignNil)
-  | .panic k =>
-    if s.panicSent.contains k then
-      let (eh, v) := Errs.newWithCause s.eh "recovered from panic" (.ref ((s.sentinels.lookup k).getD 0))
-      ({ s with eh := eh }, v)
-    else
-      let (eh, c) := Errs.new s.eh ((s.panicMsg.lookup k).getD ("sinkpanic" ++ toString k))
-      let (eh, v) := Errs.newWithCause eh "recovered from panic" c
-      ({ s with eh := eh }, v)
+    | some id => (s, .ret (.ref id))
+    | none => (s, .ret .nilIface)
+  | .err _ .typedNil => (s, .ret .typedNil)
+  | .err _ .foreignNil => (s, .ret .foreignNil)
+  | .panic k => (s, .panic (panicVal s k))
+
+/-- the `error` value `runHandler` comes back with for that child: `Rec.runHandler` (the model of `errs/recovery.go`
+    under `multilog.go:64-68`) — what the child returned, or the recovered panic -/
+def retVal (s : St) (ret : TL.Ret) : St × Errs.Val :=
+  let (s1, f) := flowOf s ret
+  let (eh, v) := Rec.runHandler s1.eh f
+  ({ s1 with eh := eh }, v)
 
 /-- the abstract child multilog sees: level threshold of the tracelog handler, outcome decided by its sink -/
 def childOf (s : St) (i : Nat) (c : TL.Handler) : ML.Child :=
@@ -206,14 +223,13 @@ def doLog (s : St) (h : H) (r : TL.Record) : St × String :=
     (s', " ".intercalate (showWrites ws ++ [out, nonNil s [t], showSentinels s']))
   | .ml m =>
     let res := ML.handle (children s m) r.level
-    -- deliveries in order; each child's return value goes into the accumulation on the errs heap
-    let (s', ws, rets) := res.deliveries.foldl (fun (acc : St × List (Nat × TL.Bytes) × List Errs.Val) i =>
-      match m.children[i]? with
-      | some c =>
-        let (s2, w, ret) := tlHandle acc.1 c r
-        let (s3, v) := retVal s2 ret
-        (s3, acc.2.1 ++ w, acc.2.2 ++ [v])
-      | none => acc) (s, [], [])
+    -- the deliveries themselves: `ML.handleTL` (every enabled child renders and delivers the record to its sink, in
+    -- order); each child's return value then goes through `runHandler` into the accumulation on the errs heap
+    let fan := ML.handleTL s.store s.sinks m r
+    let ws := fan.writes
+    let (s', rets) := fan.rets.foldl (fun (acc : St × List Errs.Val) kr =>
+      let (s3, v) := retVal acc.1 kr.2
+      (s3, acc.2 ++ [v])) ({ s with sinks := fan.sinks }, [])
     let eh' := (ML.accumulate s'.eh rets).1
     let v := ML.returned s'.eh rets
     let s' := { s' with eh := eh' }
@@ -225,6 +241,7 @@ def doLog (s : St) (h : H) (r : TL.Record) : St × String :=
     let hasAgg := (children s m).any fun c => match c.outcome with
       | .err msg => msg.startsWith "sinkagg" | _ => false
     let ret := if ret == abstract || hasAgg then ret else ret ++ " list-model-differs:" ++ abstract
+    let ret := if res.deliveries.length == fan.rets.length then ret else ret ++ " fanout-models-differ"
     (s', " ".intercalate (showWrites ws ++ [ret, nonNil s (res.deliveries.filterMap (m.children[·]?)), showSentinels s']))
 
 def isEnabled (s : St) (h : H) (level : Int) : Bool :=
@@ -234,32 +251,96 @@ def isEnabled (s : St) (h : H) (level : Int) : Bool :=
 
 def nowTok : TL.Bytes := TL.ascii " | NOW | "
 def stackTok : TL.Bytes := TL.ascii "<<STACK>>"
-def fbTok : TL.Bytes := TL.ascii "<<FB>>"
 
-/-- the ten `errs.Log*` entry points all do: `logger.Enabled`? then `Handle` of a record whose message is the
-    error's and whose first attribute carries the stack (nothing of the kind for a nil error); the result of
-    `Handle` is dropped.  `ek`: e = *errs.Error, p = plain error (wrapped inside errs), n = nil, t = typed nil. -/
+/-- the ten `errs.Log*` entry points: `ELog.logRecord` (enabled? — `createRecord` — the caller's attributes), then
+    `Handle`, whose result is dropped; over a tracelog handler this is `ELog.logToTL`, the function the `errlog_*`
+    theorems are about.  The stack text of the real error is the placeholder `<<STACK>>` (the harness substitutes it
+    after checking the real text), so what `stackValue.LogValue` prints for it is `[<<STACK>>]`.
+    `ek`: e = *errs.Error, p = plain error (wrapped inside errs), n = nil, t = typed nil. -/
 def logX (s : St) : List String → St × String
   | ek :: h :: lvl :: msg :: ws =>
     match getH s h, lvl.toInt?, hexBytes? msg, parseAttrs ws [] with
     | some h, some lvl, some msg, some as =>
-      if isEnabled s h lvl then
-        let noErr := ek == "n" || ek == "t" || (ek.startsWith "k:" && nilKinds.contains (ek.drop 2).toString)
-        let r : TL.Record := if noErr then { level := lvl, ts := nowTok, msg := [], attrs := as }
-          else { level := lvl, ts := nowTok, msg := msg,
-                 attrs := .stack TL.stackKey stackTok (.leaf TL.stackKey fbTok) :: as }
-        let (s', out) := doLog s h r
-        -- errs.Log* discards Handle's result; a panic of a tracelog sink still reaches the caller
-        match out.splitOn " nn=" with
-        | [a, b] =>
-          match a.splitOn "ret=" with
-          | [w, r] => (s', w ++ (if r.startsWith "panic:" then "ret=" ++ r else "ret=void") ++ " nn=" ++ b)
+      let noErr := ek == "n" || ek == "t" || (ek.startsWith "k:" && nilKinds.contains (ek.drop 2).toString)
+      let err : Option ELog.EErr := if noErr then none else some { msg := msg, trace := stackTok }
+      match h with
+      | .tl t =>
+        let sk := (getS s t.sink).getD {}
+        let (sk', ws, pan) := ELog.logToTL s.store t sk lvl nowTok err as
+        let s' := setS s t.sink sk'
+        let ret := match pan with
+          | some k => "ret=panic:" ++ (match panicVal s k with
+              | .err (.ref _) => "sinksentinel" ++ toString k
+              | .err v => Errs.errorText v
+              | .other txt => txt)
+          | none => "ret=void"
+        let nn := if TL.enabled t lvl then nonNil s [t] else "nn=0"
+        (s', " ".intercalate (showWrites (ws.map fun w => (t.sink, w)) ++ [ret, nn, showSentinels s']))
+      | .ml _ =>
+        match ELog.logRecord (isEnabled s h lvl) lvl nowTok err as with
+        | some r =>
+          let (s', out) := doLog s h r
+          -- multilog recovers every panic of a child: nothing but `void` reaches the caller
+          match out.splitOn " nn=" with
+          | [a, b] =>
+            match a.splitOn "ret=" with
+            | [w, _] => (s', w ++ "ret=void nn=" ++ b)
+            | _ => (s', out)
           | _ => (s', out)
-        | _ => (s', out)
-      else (s, "ret=void nn=0 " ++ showSentinels s)
+        | none => (s, "ret=void nn=0 " ++ showSentinels s)
     | _, _, _, _ => (s, "bad-op")
   | _ => (s, "bad-op")
 
+/-- `rec <panic kind> <handler kind>`: `errs.Recovery(handler)` as the deferred call of a function that panics (or not),
+    run on a heap holding one long-lived `*errs.Error` (cell 0) and one long-lived aggregate of two (cell 1) -/
+def recOp (pk hk : String) : String :=
+  let (eh, boom) := Errs.new #[] "boom-errs"
+  let (eh, a) := Errs.new eh "agg-a"
+  let (eh, b) := Errs.new eh "agg-b"
+  let eh := (Errs.append eh a [b]).1
+  let p? : Option (Option Rec.PVal) := match pk with
+    | "none" => some none
+    | "string" => some (some (.other "boom-string"))
+    | "int" => some (some (.other "42"))
+    | "tnilptr" => some (some (.other "<nil>"))
+    | "error" => some (some (.err (.plain 1 "boom-error")))
+    | "errs" => some (some (.err boom))
+    | "agg" => some (some (.err a))
+    | "runtime" => some (some (.err (.plain 2 "RUNTIMEERR")))
+    | "nil" => some (some (.err (.plain 3 "PANICNIL")))
+    | "tnilerr" => some (some (.err .typedNil))
+    | "fnilerr" => some (some (.err .foreignNil))
+    | _ => none
+  let h? : Option Rec.HKind := match hk with
+    | "nil" => some .nil
+    | "record" => some .returns
+    | "panics" => some (.panics (.other "bad handler"))
+    | "panicse" => some (.panics (.err (.plain 9 "bad-handler-error")))
+    | _ => none
+  match p?, h? with
+  | some p, some h =>
+    let (eh', o) := Rec.recovery true eh h p
+    let esc := match o.escaped with
+      | none => "-"
+      | some (.other t) => t
+      | some (.err v) => Errs.errorText v
+    let arg := match o.calls with
+      | [.ref r] =>
+        let c := Errs.unwrap eh' (.ref r)
+        let cause := if c == .nilIface then "nil" else match p with
+          | some (.err v) => if c == v then "same" else "other"
+          | some (.other _) => (match c with
+            | .ref cid => if cid ≥ eh.size then "fresh:" ++ strHex (Errs.message eh' cid) else "old"
+            | _ => "other")
+          | none => "other"
+        ["count=" ++ toString (Errs.count eh' r), "cause=" ++ cause]
+      | [] => []
+      | _ => ["arg=?"]
+    let cell (v : Errs.Val) : String := match v with
+      | .ref id => toString (Errs.count eh' id) ++ ":" ++ strHex (Errs.message eh' id)
+      | _ => "?"
+    " ".intercalate (["esc=" ++ esc, "calls=" ++ toString o.calls.length] ++ arg ++ ["boom=" ++ cell boom, "agg=" ++ cell a])
+  | _, _ => "bad-op"
 
 /-! ### the forced-schedule judge: `judge sched <depth> <nprod> <tok>* => rets=<r,...> writes=<hex|...>`
 
@@ -390,8 +471,11 @@ def step (s : St) (line : String) : St × String :=
       (s, "level=" ++ toString l ++ " depth=" ++ toString d ++ " sink=" ++ (if given == "1" then "given" else "stderr"))
     | _, _ => (s, "bad-op")
   | "mnew" :: m :: kids =>
-    match kids.mapM (fun k => match getH s k with | some (.tl t) => some t | _ => none) with
-    | some cs => (setH s m (.ml { children := cs }), "ok")
+    -- a child that is itself a fan-out handler contributes its children in place (`ML.flatChildren`: nesting is
+    -- transparent — the inner handler recovers, accumulates and hands back an aggregate that the outer one flattens)
+    match kids.mapM (fun k => match getH s k with
+        | some (.tl t) => some (ML.Kid.leaf t) | some (.ml m) => some (ML.Kid.fan m) | none => none) with
+    | some ks => (setH s m (.ml { children := ML.flatChildren ks }), "ok")
     | none => (s, "bad-op")
   | ["wg", n, p, name] =>
     match getH s p, hexBytes? name with
@@ -440,7 +524,9 @@ def step (s : St) (line : String) : St × String :=
           let s := { s with failMsg := if m.startsWith "failk:" then (i, kindMsg (m.drop 6).toString) :: s.failMsg.filter (·.1 != i)
                                        else s.failMsg.filter (·.1 != i) }
           let s := { s with panicMsg := (i, txt) :: s.panicMsg.filter (·.1 != i),
-                            panicSent := if m == "panics" then i :: s.panicSent else s.panicSent.filter (· != i) }
+                            panicSent := if m == "panics" then i :: s.panicSent else s.panicSent.filter (· != i),
+                            panicErr := if m == "panice" || m == "panicr" || m == "panicn" then i :: s.panicErr
+                                        else s.panicErr.filter (· != i) }
           (setS s i { sk with mode := md }, "ok")
         | none => (s, "bad-op")
       | none => (s, "bad-op")
@@ -474,6 +560,7 @@ def step (s : St) (line : String) : St × String :=
     match getH s h, lvl.toInt?, hexBytes? ts, hexBytes? msg, parseAttrs ws [] with
     | some h, some lvl, some ts, some msg, some as => doLog s h { level := lvl, ts := ts, msg := msg, attrs := as }
     | _, _, _, _, _ => (s, "bad-op")
+  | ["rec", pk, hk] => (s, recOp pk hk)
   | "logerr" :: rest => logX s ("e" :: rest)
   | "logx" :: _ :: _ :: _ :: ek :: rest => logX s (ek :: rest)
   | _ => (s, "bad-op")
